@@ -1,5 +1,5 @@
 from .. import facts
-from ..rules import filt
+from ..rules import filt, matrix
 
 
 def run(ck):
@@ -16,3 +16,4 @@ def run(ck):
     filt.r11_final_correction(ck, P)
     filt.r12_param_block_validated(ck, P)
     filt.r14_header_fields_bounded(ck, P)
+    matrix.r20_matrix_unit_keeps_no_state(ck, P, 'C18-R14', unit='pixman-filter.c', floor=5)
